@@ -33,7 +33,7 @@ Code the property is anchored in: {files}
 
 {tried}
 
-## Requirements
+{hint}## Requirements
 
 1. The bug must need something specific to manifest - a particular interleaving of
    threads/tasks, a fault/cancellation/panic at a particular point, a multi-step sequence of
@@ -74,5 +74,6 @@ for pid in sys.argv[2:]:
     p = props[pid]
     t = '\n'.join('* ' + x for x in tried.get(pid, [])) or '(nothing yet)'
     open(d + '/TASK.md', 'w').write(BASE.format(dir=d, id=pid, title=p['title'], statement=p['statement'],
-                                                quant=p['quantifier']['text'], files=', '.join(p['anchors'].get('files', [])), tried=t))
+                                                quant=p['quantifier']['text'], files=', '.join(p['anchors'].get('files', [])), tried=t,
+                                                hint=(os.environ.get('SEED_HINT', '') + "\n\n") if os.environ.get('SEED_HINT') else ''))
 print("ok")
